@@ -141,8 +141,8 @@ pub fn cfg_strategy(p: Profile, thorough: bool) -> BoxedStrategy<Cfg> {
     // a second relationship type in half of the configurations that have hierarchies
     let offset = prop_oneof![6 => Just(0u16), 3 => 40u16..70, 1 => 8170u16..8200];
     let fns = prop_oneof![5 => Just(0u8), 2 => Just(1u8), 2 => Just(2u8), 1 => Just(3u8)];
-    let inner = (cfg_strategy_inner(p, thorough), any::<bool>(), offset, proptest::bool::weighted(0.3), fns, proptest::bool::weighted(0.3))
-        .prop_map(move |(c, o, entity_offset, markers, custom_fns, split_plugins)| Cfg { split_plugins, owners: (o || matches!(p, Profile::Related)) && c.children, entity_offset, markers, custom_fns, ..c })
+    let inner = (cfg_strategy_inner(p, thorough), any::<bool>(), offset, proptest::bool::weighted(0.3), fns, proptest::bool::weighted(0.3), proptest::bool::weighted(0.4))
+        .prop_map(move |(c, o, entity_offset, markers, custom_fns, split_plugins, noise)| Cfg { noise, split_plugins, owners: (o || matches!(p, Profile::Related)) && c.children, entity_offset, markers, custom_fns, ..c })
         .boxed();
     if matches!(p, Profile::Events | Profile::Events3 | Profile::Sessions | Profile::Auth | Profile::Lossy | Profile::Split | Profile::Tracked) {
         (inner, varint_edge_start())
@@ -383,6 +383,9 @@ pub fn step_strategy(cfg: &Cfg, p: Profile) -> BoxedStrategy<Step> {
     ));
     v.push((w(wrap, 2), any::<u8>().prop_map(|fine| Step::BigJump { fine }).boxed()));
     v.push((w(cfg.big_jumps && cfg.start_tick >= (1 << 16), if wrap { 2 } else { 5 }), (3u8..10).prop_map(|before| Step::ToWrap { before }).boxed()));
+    v.push((w(cfg.noise, 4), (0..slots, any::<bool>(), any::<bool>()).prop_map(|(slot, on, sparse)| Step::Noise { slot, on, sparse }).boxed()));
+    v.push((w(cfg.noise, 3), (0..clients, 0..slots, any::<bool>()).prop_map(|(client, slot, on)| Step::ClientNoise { client, slot, on }).boxed()));
+    v.push((w(cfg.noise, 3), (0..slots, k_strategy()).prop_map(|(slot, k)| Step::Touch { slot, k }).boxed()));
     v.push((w(cfg.refs, if cfg.prespawn { 8 } else { 3 }), (0..slots, 0..slots).prop_map(|(slot, target)| Step::SetRef { slot, target }).boxed()));
     v.push((w(cfg.refs, 1), (0..slots).prop_map(|slot| Step::DelRef { slot }).boxed()));
     v.push((w(cfg.refs && !cfg.prespawn, 3), (0..slots, 0..slots).prop_map(|(holder, target)| Step::ForwardRef { holder, target }).boxed()));
